@@ -293,7 +293,7 @@ class AbsExec:
         if k == "discr":
             v = self.read_place(fr, rv["place"])
             if isinstance(v, Adt):
-                return ("variant", v.variant)
+                return ("variant", v.variant, v.name)
             return TOP
         if k == "repeat":
             v = self.operand(fr, rv["op"])
@@ -461,6 +461,13 @@ class AbsExec:
                         d = ("cond", "variant?", d[1], False)
                     else:
                         idx = self.domain.variant_index(self, d[1]) if hasattr(self.domain, "variant_index") else None
+                        if idx is None and len(d) == 3 and isinstance(d[1], str):
+                            # a crate-local fieldless / data enum: its declaration order (explicit discriminants where given)
+                            adt = self.F.adts.get(d[2]) if isinstance(d[2], str) else None
+                            if adt and adt.get("kind") == "Enum":
+                                for i_, v_ in enumerate(adt.get("variants") or []):
+                                    if v_.get("name") == d[1]:
+                                        idx = v_.get("discr", i_) if isinstance(v_.get("discr", i_), int) else i_
                         d = idx if idx is not None else TOP
                 if isinstance(d, int):
                     nxt = t["otherwise"]
